@@ -103,6 +103,9 @@ func propC02(h *H) {
 		}
 	}
 	h.St.Nontriv += len(classes)
+	if eq.IsValid() && eqc.IsValid() {
+		lateBinding(h, gens, eq, eqc, "curried-late-binding")
+	}
 	// values that share memory: a value and a shorter window of the same backing
 	// array, a value and itself
 	if eq.IsValid() {
@@ -229,6 +232,9 @@ func propC03(h *H) {
 				h.St.Sample = fmt.Sprintf("Compare(%s, %s) = %d", Show(x), Show(y), c)
 			}
 		}
+	}
+	if cmpc.IsValid() {
+		lateBinding(h, gens, cmp, cmpc, "curried-late-binding")
 	}
 	// values that share memory: a value and a shorter window of the same backing
 	// array, a value and itself (the answer may not depend on addresses)
@@ -615,6 +621,84 @@ func Mutate(v reflect.Value) {
 		panic("rt.Mutate: need addressable value")
 	}
 	walk(v)
+}
+
+// Overwrite replaces what the reference x points to by the contents of src, keeping the
+// reference itself (pointer target, map, backing array): the situation of a caller who
+// keeps using a value after handing it to a curried function. False when the root of x is
+// not a shared reference (values are copied into the closure by the language).
+func Overwrite(x, src reflect.Value) bool {
+	if x.Kind() != src.Kind() {
+		return false
+	}
+	switch x.Kind() {
+	case reflect.Ptr:
+		if x.IsNil() || src.IsNil() {
+			return false
+		}
+		access(x.Elem()).Set(access(src.Elem()))
+		return true
+	case reflect.Map:
+		if x.IsNil() || src.IsNil() {
+			return false
+		}
+		for _, k := range x.MapKeys() {
+			x.SetMapIndex(k, reflect.Value{})
+		}
+		for _, k := range src.MapKeys() {
+			x.SetMapIndex(k, src.MapIndex(k))
+		}
+		return true
+	case reflect.Slice:
+		if x.IsNil() || src.IsNil() || x.Len() != src.Len() || x.Len() == 0 {
+			return false
+		}
+		reflect.Copy(x, src)
+		return true
+	}
+	return false
+}
+
+// lateBinding: a curried function made for x, x overwritten in place afterwards, then
+// applied. The answer has to be the binary form's for x as it is now, or for x as it was
+// when the function was made (a complete snapshot) - not a mixture of the two.
+func lateBinding(h *H, gens []Gen, bin, cur reflect.Value, clause string) {
+	n := len(gens)
+	for i := 0; i < n; i++ {
+		probe := gens[i]()
+		if !Overwrite(probe, gens[(i+1)%n]()) {
+			continue
+		}
+		for j := 0; j < n; j++ {
+			x := gens[i]()
+			res, pan := Call(cur, x)
+			if pan != "" {
+				break // reported by the pair loop
+			}
+			Overwrite(x, gens[(i+1)%n]())
+			y := gens[j]()
+			r2, pan2 := Call(res[0], y)
+			now, pan3 := Call(bin, x, y)
+			then, pan4 := Call(bin, gens[i](), y)
+			h.St.Evals += 3
+			if pan2 != "" || pan3 != "" || pan4 != "" {
+				if pan2 != "" && pan3 == "" {
+					h.Violation(clause+"-panics", panKey(x, y), pan2, x, y)
+				}
+				continue
+			}
+			h.St.States++
+			a := fmt.Sprint(r2[0].Interface())
+			if a != fmt.Sprint(now[0].Interface()) && a != fmt.Sprint(then[0].Interface()) {
+				d := Diff(x, y)
+				h.Violation(clause, fmt.Sprintf("%s|%s|%s", d.Kind, d.Type, d.Ctx),
+					fmt.Sprintf("curried function made for %s, argument then overwritten in place: curried=%s, binary form on the current value=%v, on the original value=%v",
+						Show(gens[i]()), a, now[0].Interface(), then[0].Interface()), x, y)
+			} else if fmt.Sprint(now[0].Interface()) != fmt.Sprint(then[0].Interface()) {
+				h.St.Nontriv++
+			}
+		}
+	}
 }
 
 func propC05(h *H) {
